@@ -797,9 +797,15 @@ class TaskJobManager:
                         LOG.warning(str(exc))
         # Task jobs that are in the original command but did not get a status
         # in the output. Handle as failures.
+        # (A command that was not run because the workflow is stopping keeps
+        # its special return code, so that e.g. a dropped job submission is
+        # not mistaken for a failed one.)
+        ret_code = "1"
+        if ctx.ret_code == SubProcPool.RET_CODE_WORKFLOW_STOPPING:
+            ret_code = str(ctx.ret_code)
         for key, itask in sorted(bad_tasks.items()):
             line = (
-                "|".join([ctx.timestamp, os.sep.join(key), "1"]) + "\n")
+                "|".join([ctx.timestamp, os.sep.join(key), ret_code]) + "\n")
             summary_callback(itask, ctx, line)
 
     def _poll_task_jobs_callback(self, ctx, itasks):
